@@ -2196,6 +2196,8 @@ class Interp:
                     return ConstV(bytes(a0.value))
                 except Exception:   # noqa: BLE001
                     return UnknownV("bytes(const)")
+            if isinstance(a0, BytesV):
+                return a0          # bytes(<bytes>) is the same value
             return self.fresh_bytes(st, ("bytes", repr(a0)[:40]))
         if name in ("int", "ord"):
             if isinstance(a0, ConstV):
@@ -2250,6 +2252,8 @@ class Interp:
                 return self.alloc(st, "list", items=[], iter="range", lo=Lin(0), hi=ls[0], summary=True)
             if len(ls) >= 2:
                 return self.alloc(st, "list", items=[], iter="range", lo=ls[0], hi=ls[1] if len(ls) == 2 else None, summary=True)
+        if name == "reversed" and self.as_bytes(a0) is not None:
+            return self.slice(a0, None, None, ConstV(-1), st, node)      # the bytes of x in reverse order (= x[::-1] once given to bytes())
         if name in ("sorted", "list", "tuple", "reversed", "iter"):
             if isinstance(a0, Ref) and st.heap[a0.oid]["kind"] == "list":
                 o = st.heap[a0.oid]
